@@ -21,7 +21,7 @@ ASSUMPTIONS = [
     "levels ascending (ordering is C10's subject)",
 ]
 TOLERANCES = {"double": "(1e-12 + 4096*eps*G) * max(|q0|_1*max|fp|, max|forward|)", "single": "1e-4 * same scale"}
-BUDGET = {"quick": dict(examples=500, shards=1), "thorough": dict(examples=3000, shards=16)}
+BUDGET = {"quick": dict(examples=1500, shards=1), "thorough": dict(examples=12000, shards=16)}
 
 
 def warmup():
